@@ -156,6 +156,9 @@ type zzWorld struct {
 // zzNewClient is what the pool's createStreamClient is replaced by: a stream
 // client over a connection whose dial succeeds, is refused or times out.
 func (w *zzWorld) zzNewClient(dial int) *zzClient {
+	if dial < 0 {
+		dial = verif.Choose("dial_outcome", 3)
+	}
 	c := &zzClient{id: uint64(len(w.clients) + 1), dial: dial}
 	if dial != 0 {
 		c.closed = true // never established: not counted as an open connection
@@ -258,7 +261,7 @@ func zzHTTPPool(steps int) {
 				verif.EngineOnly("NewStream would dial: a real connection natively, a modelled dial under the engine")
 			}
 			idleBefore := len(pool.availableClients)
-			w.nextDial = verif.Choose("dial_outcome", 3)
+			w.nextDial = -1 // decided when (and only if) a dial happens
 			ctx := variable.NewVariableContext(context.Background())
 			_, sender, reason := pool.NewStream(ctx, nil)
 			if sender != nil {
